@@ -460,6 +460,31 @@ func (g *gen) aliasAndFixed() []*StructDef {
 	mk("FixedU", true, f(1, Default, I32), f(2, Required, I64), f(3, Default, Bool), f(4, Default, Double))
 	mk("FixedN", false, f(1, Default, I16), f(2, Required, I8), f(7, Default, I64))
 	mk("FixedOneU", true, f(3, Default, I64))
+	// by-value container elements whose own fields are all required but which still have parts a message may leave
+	// out (a required by-value struct with optional fields; the unknown-fields holder): what the previous entry or
+	// the previous message left in a recycled slot shows exactly there
+	mk("OptLeaf", false, f(1, Optional, I32), f(2, Optional, String), f(3, Default, I64), f(4, Optional, Binary))
+	mk("AllReqV", false, f(1, Required, I32), &Field{ID: 2, Name: "F2", T: &T{K: Struct, S: "OptLeaf"}, Req: Required}, f(3, Required, String))
+	mk("AllReqU", true, f(1, Required, I32), f(2, Required, String))
+	mk("HoldAllReq", false,
+		&Field{ID: 1, Name: "F1", T: &T{K: Map, Key: &T{K: I32}, Elem: &T{K: Struct, S: "AllReqV"}}},
+		&Field{ID: 2, Name: "F2", T: &T{K: Map, Key: &T{K: String}, Elem: &T{K: Struct, S: "AllReqU"}}},
+		&Field{ID: 3, Name: "F3", T: &T{K: List, Elem: &T{K: Struct, S: "AllReqV"}}, Req: Optional},
+		&Field{ID: 4, Name: "F4", T: &T{K: Struct, S: "AllReqU"}},
+		&Field{ID: 5, Name: "F5", T: &T{K: Map, Key: &T{K: I64}, Elem: &T{K: Struct, S: "AllReqV", Ptr: true}}, Req: Optional},
+		&Field{ID: 6, Name: "F6", T: &T{K: Map, Key: &T{K: I8}, Elem: &T{K: Map, Key: &T{K: I32}, Elem: &T{K: Struct, S: "AllReqU"}}}})
+	// nocopy views and the unknown-fields holder in the same definition (both refer to the message: one by design,
+	// the other must not), at the top level and nested
+	{
+		nc := func(id uint16, req Req, k Kind) *Field { x := f(id, req, k); x.NoCopy = true; x.OptPtr = false; return x }
+		mk("NcU", true, nc(1, Default, String), f(2, Default, I32), nc(3, Optional, Binary), f(4, Optional, I64), f(9, Default, String))
+		mk("HoldNcU", true,
+			&Field{ID: 1, Name: "F1", T: &T{K: Struct, S: "NcU", Ptr: true}},
+			&Field{ID: 2, Name: "F2", T: &T{K: List, Elem: &T{K: Struct, S: "NcU"}}, Req: Optional},
+			&Field{ID: 3, Name: "F3", T: &T{K: Map, Key: &T{K: String}, Elem: &T{K: Struct, S: "NcU", Ptr: true}}},
+			&Field{ID: 4, Name: "F4", T: &T{K: Struct, S: "NcU"}},
+			nc(5, Optional, String))
+	}
 	// a map type that occurs inside its own value type, by value and by pointer: the decode of an inner map runs
 	// while the outer one is between decoding an entry and storing it
 	for _, ptr := range []bool{false, true} {
@@ -643,6 +668,26 @@ func (g *gen) invalids(valid []string) []*StructDef {
 			{ID: 3, Name: "F3", T: &T{K: String}},
 		}}
 		out = append(out, cont)
+		if i%5 == 3 {
+			// a valid definition that nothing else uses, met for the first time inside this container - before the
+			// field that gets the container rejected - and later used on its own (a bystander of the failed registration)
+			leaf := fmt.Sprintf("ByVal%d", i)
+			out = append(out, &StructDef{Name: leaf, Cluster: -1, Fields: []*Field{
+				{ID: 1, Name: "F1", T: &T{K: I32}},
+				{ID: 2, Name: "F2", T: &T{K: Struct, S: "ByKeyLeaf", Ptr: true}},
+				{ID: 3, Name: "F3", T: &T{K: String}, Req: Optional, OptPtr: true},
+			}})
+			switch (i / 5) % 4 {
+			case 0:
+				cont.Fields[0].T = &T{K: Struct, S: leaf}
+			case 1:
+				cont.Fields[0].T = &T{K: List, Elem: &T{K: Struct, S: leaf}}
+			case 2:
+				cont.Fields[0].T = &T{K: Map, Key: &T{K: I32}, Elem: &T{K: Struct, S: leaf}}
+			default:
+				cont.Fields[0].T = &T{K: Struct, S: leaf, Ptr: true}
+			}
+		}
 		if i%4 == 0 {
 			// second level: contains a container
 			out = append(out, &StructDef{Name: fmt.Sprintf("HasHas%d", i), Cluster: -1, ContainsInvalid: true, Fields: []*Field{
